@@ -95,8 +95,8 @@ class Gen:
             a = "l"          # `.{n,m}` is a different node type (RE_NODE_RANGE_ANY), outside the modelled fragment
         return "R%d,%d;%s" % (lo, hi, a)
 
-    def re_text(self, ast):
-        """prefix AST -> (regex text, rest)"""
+    def re_text(self, ast, fixed=False):
+        """prefix AST -> (regex text, rest); fixed: literals are `a`, classes `[ab]` (so that a run of a's matches)"""
         import sys
         sys.setrecursionlimit(max(sys.getrecursionlimit(), 20000))
         pos = [0]
@@ -104,11 +104,11 @@ class Gen:
         def go():
             t = ast[pos[0]]; pos[0] += 1
             if t == "l":
-                return self.r.choice("abcdefgh")
+                return "a" if fixed else self.r.choice("abcdefgh")
             if t == "y":
                 return "."
             if t == "c":
-                return "[%s%s]" % (self.r.choice("abc"), self.r.choice("xyz"))
+                return "[ab]" if fixed else "[%s%s]" % (self.r.choice("abc"), self.r.choice("xyz"))
             if t == "C":
                 a = go(); b = go()
                 return a + b
@@ -181,6 +181,26 @@ class Gen:
                     txt, _ = self.re_text(ast)
                     if len(txt) < 8000:
                         self.add("re", "re ast=%s re=%s%s" % (ast, hx(txt), lk))
+            # every size guard at its exact boundary: bodies of exactly N bytes (classes 34, literals 2, `.` 1) for a window
+            # of N around 32760 so that each guard sees distance bound-1, bound, bound+1 (function level: size or TOO_LARGE;
+            # API level for a few of them: compile + scan under ASan)
+            def body_of(nbytes):
+                a, rest = divmod(nbytes, 34)
+                while a > 960:          # keep the text below the lexer buffer: trade classes for literals only when needed
+                    a -= 1; rest += 34
+                lits, dots = divmod(rest, 2)
+                return self.cat(["c"] * a + ["l"] * lits + ["y"] * dots)
+            window = range(32752, 32772) if self.tier == "quick" else range(32700, 32800)
+            for wrap in ("S%s", "P%s", "A%sl", "Al%s", "R0,1;%s", "R1,2;%s"):
+                for nb in window:
+                    ast = self.cat(["l"] * 4 + [wrap % body_of(nb)])
+                    txt, _ = self.re_text(ast)
+                    if len(txt) < 8100:
+                        self.add("re", "re ast=%s re=%s%s" % (ast, hx(txt), lk))
+                        if nb in (32759, 32760, 32761, 32762, 32764, 32765):
+                            ftxt, _ = self.re_text(ast, fixed=True)
+                            rule = "rule r { strings: $a = /%s/ condition: $a or true }\nrule q { condition: r }" % ftxt
+                            self.add("rx", "scan m=rebound ast=%s text=%s buf=61*3000 show=q%s" % (ast, hx(rule), lk))
             ast = self.cat(["l"] * 4 + ["S" + self.cat(["c"] * 1200)])
             txt, _ = self.re_text(ast)
             self.add("rs", "compile m=resplit ast=%s text=%s%s" % (ast, hx("rule r { strings: $a = /%s/ condition: $a }" % txt), lk))
@@ -386,6 +406,37 @@ class Gen:
         for seq in ("1,2,1,1", "2,1", "1,2,2,1", "1,1"):
             self.add("fr", "scanseq m=fibers need1=1 need2=%d seq=%s text=%s buf=%s buf2=%s%s" % (10 * L + 7, seq, hx(rules), benign, hostile, self.L("RE_MAX_FIBERS")))
 
+    def tmm_reuse(self):
+        # variant build (small YR_MAX_STRING_MATCHES): a string with a given index hits the limit (callback answers CONTINUE, the
+        # string is muted for that scan), then the SAME scanner scans data in which that string must be reported again
+        if not self.explicit:
+            return
+        L = self.c["YR_MAX_STRING_MATCHES"]
+        for nrules, nstr in ((1, 131), (3, 131), (1, 66), (2, 70), (70, 70)):
+            for idx in (0, 63, 64, 65, nstr - 1):
+                per = (nstr + nrules - 1) // nrules
+                rules = []
+                for r_ in range(nrules):
+                    ids = range(r_ * per, min(nstr, (r_ + 1) * per))
+                    if not ids:
+                        continue
+                    rules.append("rule r%d { strings: %s condition: any of them }" % (r_, " ".join('$s%d = "k%03d"' % (i, i) for i in ids)))
+                tok = ("k%03d" % idx).encode().hex()
+                other = ("k%03d" % ((idx + 1) % nstr)).encode().hex()
+                hostile = "%s*%d+%s*1" % (tok, L + 4, other)
+                benign = "%s*2+%s*1" % (tok, other)
+                for seq in ("2,1", "1,2,1,1"):
+                    self.add("tr", "scanseq m=tmmseq nstr=%d idx=%d seq=%s text=%s buf=%s buf2=%s%s" % (
+                        nstr, idx, seq, hx("\n".join(rules)), benign, hostile, self.L("YR_MAX_STRING_MATCHES")))
+
+    def block_timeouts(self):
+        # multi-block scans with blocks far smaller than the clock stride: the deadline must be noticed at a block boundary
+        if self.explicit:
+            return
+        rule = hx('rule t { strings: $a = "zzzz" condition: $a }')
+        for nb, bs, sl, tmo in ((8, 64, 300, 1), (6, 1000, 400, 1), (5, 4095, 400, 1), (3, 64, 100, 5), (4, 5000, 350, 1)):
+            self.add("bt", "scanblocks m=blocktimeout nblocks=%d bsize=%d sleep_ms=%d timeout=%d text=%s" % (nb, bs, sl, tmo, rule))
+
     def set_timeout(self):
         if self.explicit:
             return
@@ -492,7 +543,7 @@ class Gen:
 
     def all(self):
         self.ml(); self.fib(); self.regex(); self.loops(); self.idents(); self.intlits(); self.includes()
-        self.strings_per_rule(); self.stack(); self.set_timeout(); self.loop_stack(); self.fiber_reuse(); self.matches()
+        self.strings_per_rule(); self.stack(); self.set_timeout(); self.loop_stack(); self.fiber_reuse(); self.tmm_reuse(); self.block_timeouts(); self.matches()
         return self.cases
 
 
